@@ -132,6 +132,9 @@ class DirecTV0(protocol_base.IrProtocolBase):
                 raise LeadOutError
 
         decoded = []
+        if len(code) % 2:
+            raise IRStreamError
+
         for i in range(0, len(code), 2):
             mark = code[i]
             space = code[i + 1]
